@@ -263,7 +263,7 @@ int main(int argc, char **argv)
 {
   Args args(argc, argv);
   bool thorough = args.thorough();
-  int depth = thorough ? 7 : 5;
+  int depth = thorough ? 7 : 6;
   std::vector<Op> alpha = alphabet();
 
   // enumerate all enabled sequences up to `depth` (abstract state decides enabledness); sequences must contain a deletion
